@@ -432,6 +432,11 @@ func (g *uciGen) during(w *uciWorld) {
 	if c.stopSent {
 		if !c.drained {
 			c.drained = true
+			if r.IntN(3) == 0 {
+				// the stop has been sent but the search does not get to run for a
+				// while (loaded machine): simulated time passes first
+				g.queue = append(g.queue, UStep{Op: "tick", DUS: pick(r, []int64{1000, 100_000, 3_000_000, 400_000_000})})
+			}
 			g.queue = append(g.queue, UStep{Op: "drain"})
 			return
 		}
